@@ -148,7 +148,7 @@ def strip_comments(src: str) -> str:
 
 def source_scan():
     hits = []
-    files = list((LEAN / "SciVerif").rglob("*.lean")) + [LEAN / "Driver.lean", LEAN / "SciVerif.lean"]
+    files = list((LEAN / "SciVerif").rglob("*.lean")) + list((LEAN / "Drivers").rglob("*.lean"))
     for f in files:
         if not f.exists():
             continue
@@ -179,8 +179,9 @@ def audit_axioms(module: str, names):
 class Driver:
     """Line protocol to the compiled Lean model driver (batch mode)."""
 
-    def __init__(self):
-        self.exe = LEAN / ".lake" / "build" / "bin" / "driver"
+    def __init__(self, prop):
+        self.prop = prop
+        self.exe = LEAN / ".lake" / "build" / "bin" / ("drv_%s" % prop.lower())
 
     def ask_many(self, reqs, timeout=1800):
         if not reqs:
@@ -217,7 +218,7 @@ class Ctx:
         self.obligations = []
         self.discharged = []
         self.extra = {}
-        self.driver = Driver()
+        self.driver = Driver(prop)
 
     # -- bookkeeping ------------------------------------------------------
     def count(self, key, n=1):
@@ -282,7 +283,9 @@ def write_evidence(ctx, nviol, checker_cmd, assumptions, rule, explanation=""):
         "violations": nviol,
     }
     d = VERIF / "evidence"
-    d.mkdir(exist_ok=True)
+    if os.environ.get("VERIF_NO_EVIDENCE"):   # mutant runs against scratch worktrees
+        d = VERIF / "replays" / "mutant-evidence"
+    d.mkdir(parents=True, exist_ok=True)
     (d / ("%s.json" % ctx.prop)).write_text(json.dumps(ev, indent=1, default=str) + "\n")
 
 
@@ -337,7 +340,7 @@ def _check(ctx, mod):
                 traceback.print_exc()
                 ctx.broken.append("translator:%s: %r" % (prop, e))
         # 2. model + driver, then proofs
-        ok, out, failing = lake_build(["driver"])
+        ok, out, failing = lake_build(["drv_%s" % prop.lower()])
         if not ok:
             print(out[-4000:])
             ctx.broken += ["model-build:" + f for f in failing]
